@@ -121,11 +121,6 @@ theorem C18_return_types (e : Ep) :
 
 /- ------------------------------------------------------------------ send queue -/
 
-theorem QInv.init (cfg : Cfg) : QInv { cfg := cfg } :=
-  ⟨by simp [Ep.inflight, tmpTids], by simp, by simp [Ep.inflight, tmpTids], by simp⟩
-
-theorem RxQInv.init (cfg : Cfg) : RxQInv { cfg := cfg } := ⟨by simp, by simp⟩
-
 /-- The send queue is exactly "handed out and not yet finished".
     Over any event list from a fresh endpoint there is a list `fin` of (id, length, text) such that
     * the `send_bundle_finished` signals emitted, in order, are exactly `fin`;
